@@ -2,7 +2,7 @@
    runFSM / testConstraint / doAction, src/inc/opcodes.h for the action opcodes), over a glyph stream as a list.
    A rule has a pattern of glyph sets with [pre] items of pre-context, actions per item from the pre-context on, and leaves the
    cursor after its window.  Precedence: longest pattern (sort key) first, then earliest rule.  No proofs here. *)
-From GR Require Import Base.Bytes Model.PosModel.
+From GR Require Import Base.Bytes Model.PosModel Model.LoopModel.
 From Coq Require Import NArith ZArith Bool.
 Local Open Scope N_scope.
 
@@ -196,8 +196,18 @@ Section Pass.
 
   (* ---- the rule loop of Pass::runGraphite in full: cursor adjustment (r_ret), the high-water mark, highpassed, the loop counter.
      Slots are addressed by their index in the stream; None is the null pointer. *)
-  Record lstate := mkls0 { ls_l : list slot; ls_s : option nat; ls_hw : option nat; ls_hp : bool; ls_lc : nat; ls_b : option nat; ls_dead : bool }.
-  (* ls_b: the remaining insert budget (SlotMap::m_maxSize; None = not tracked); ls_dead: an INSERT found it exhausted (the machine DIEs and gr_make_seg fails) *)
+  (* the resources an INSERT draws on: the insert budget (SlotMap::m_maxSize) and the segment's pool of free slots (Segment::newSlot:
+     slots come in blocks of a_bs; when the pool is empty a new block is refused once the stream holds more than a_cap slots) *)
+  Record alloc := mkalloc { a_bud : nat; a_free : nat; a_bs : nat; a_cap : nat }.
+  Definition set_bud (a : alloc) (n : nat) : alloc := mkalloc n (a_free a) (a_bs a) (a_cap a).
+  Definition set_free (a : alloc) (f : nat) : alloc := mkalloc (a_bud a) f (a_bs a) (a_cap a).
+  Definition newslot (a : alloc) (len : nat) : option alloc :=
+    match a_free a with
+    | O => if Nat.ltb (a_cap a) len then None else Some (set_free a (a_bs a - 1))
+    | S f => Some (set_free a f)
+    end.
+  Record lstate := mkls0 { ls_l : list slot; ls_s : option nat; ls_hw : option nat; ls_hp : bool; ls_lc : nat; ls_b : option alloc; ls_dead : bool }.
+  (* ls_b: the remaining insert budget and the slot pool (None = not tracked); ls_dead: an INSERT found it exhausted (the machine DIEs and gr_make_seg fails) *)
   Definition mkls (l : list slot) (s hw : option nat) (hp : bool) (lc : nat) : lstate := mkls0 l s hw hp lc None false.
   Definition nxt (l : list slot) (k : nat) : option nat := if Nat.ltb (S k) (length l) then Some (S k) else None.
   Definition prv (k : nat) : option nat := match k with O => None | S j => Some j end.
@@ -217,17 +227,21 @@ Section Pass.
 
   (* one item of a substitution rule executed at absolute index pos (the slot `is`): inserts, the item's own actions, delete, NEXT.
      Returns the stream, the index of `is` after NEXT, the high-water index and highpassed. *)
-  Fixpoint do_inserts (acts : list act) (l : list slot) (pos : nat) (hw : option nat) (hp : bool) (b : option nat) : list slot * nat * option nat * bool * option nat * bool :=
+  Fixpoint do_inserts (acts : list act) (l : list slot) (pos : nat) (hw : option nat) (hp : bool) (b : option alloc) : list slot * nat * option nat * bool * option alloc * bool :=
     match acts with
     | [] => (l, pos, hw, hp, b, false)
     | AInsert g :: rest =>
-        (* INSERT: if (smap.decMax() <= 0) DIE; if (is == highwater) highpassed = false; the new slot goes in front of `is`; then PUT_GLYPH;
-           NEXT (the new slot is not the high-water slot) *)
-        let b1 := match b with Some n => Some (n - 1)%nat | None => None end in
-        if match b with Some n => Nat.leb n 1 | None => false end then (l, pos, hw, hp, b1, true) else
-        let hp1 := if oeq hw pos then false else hp in
-        let hw1 := match hw with Some h => if Nat.leb pos h then Some (S h) else Some h | None => None end in
-        do_inserts rest (insert_at l pos (mkslot g (adv g) 0)) (S pos) hw1 hp1 b1
+        (* INSERT: if (smap.decMax() <= 0) DIE; newSlot = seg.newSlot(); if (!newSlot) DIE; if (is == highwater) highpassed = false;
+           the new slot goes in front of `is`; then PUT_GLYPH; NEXT (the new slot is not the high-water slot) *)
+        let b1 := match b with Some a => Some (set_bud a (a_bud a - 1)%nat) | None => None end in
+        if match b with Some a => Nat.leb (a_bud a) 1 | None => false end then (l, pos, hw, hp, b1, true) else
+        match (match b1 with Some a => match newslot a (length l) with Some a' => Some (Some a') | None => None end | None => Some None end) with
+        | None => (l, pos, hw, hp, b1, true)
+        | Some b2 =>
+            let hp1 := if oeq hw pos then false else hp in
+            let hw1 := match hw with Some h => if Nat.leb pos h then Some (S h) else Some h | None => None end in
+            do_inserts rest (insert_at l pos (mkslot g (adv g) 0)) (S pos) hw1 hp1 b2
+        end
     | _ :: rest => do_inserts rest l pos hw hp b
     end.
   Fixpoint has_delete (acts : list act) : bool := match acts with [] => false | ADelete :: _ => true | _ :: r => has_delete r end.
@@ -253,10 +267,14 @@ Section Pass.
                     end in
         own_acts rd rest cur'
     end.
-  Definition do_item (r : rule) (orig done : list slot) (j : nat) (acts : list act) (l : list slot) (pos : nat) (hw : option nat) (hp : bool) (b : option nat)
-    : list slot * nat * option nat * bool * list slot * option nat * bool :=
-    let '(l1, pos1, hw1, hp1, b1, dead) := do_inserts acts l pos hw hp b in
-    if dead then (l1, pos1, hw1, hp1, done, b1, true) else
+  Definition do_item (r : rule) (orig done : list slot) (j : nat) (acts : list act) (l : list slot) (pos : nat) (hw : option nat) (hp : bool) (b : option alloc)
+    : list slot * nat * option nat * bool * list slot * option alloc * bool :=
+    let '(l1, pos1, hw1, hp1, b0, dead) := do_inserts acts l pos hw hp b in
+    if dead then (l1, pos1, hw1, hp1, done, b0, true) else
+    (* TEMP_COPY (a slot that this rule both changes and refers to): newSlot = seg.newSlot(); if (!newSlot) DIE *)
+    match (if tempc r j then match b0 with Some a => match newslot a (length l1) with Some a' => Some (Some a') | None => None end | None => Some None end else Some b0) with
+    | None => (l1, pos1, hw1, hp1, done, b0, true)
+    | Some b1 =>
     let cur0 := match nth_error l1 pos1 with Some s => s | None => mkslot 0 0 0 end in
     let live := fun (c : slot) (q : nat) => if Nat.ltb q j then nth_error done q else if Nat.eqb q j then Some c else nth_error orig q in
     let cur1 := own_acts (fun c ref => read_src r orig (live c) j ref) acts cur0 in
@@ -270,9 +288,10 @@ Section Pass.
       let hp3 := match prv pos1 with Some p => if oeq hw3 p then true else hp1 | None => hp1 end in
       (l3, pos1, hw3, hp3, done', b1, false)
     else
-      (l2, S pos1, hw1, (if oeq hw1 pos1 then true else hp1), done', b1, false).
-  Fixpoint do_items (r : rule) (orig done : list slot) (j n : nat) (acts : list (list act)) (l : list slot) (pos : nat) (hw : option nat) (hp : bool) (b : option nat)
-    : list slot * nat * option nat * bool * option nat * bool :=
+      (l2, S pos1, hw1, (if oeq hw1 pos1 then true else hp1), done', b1, false)
+    end.
+  Fixpoint do_items (r : rule) (orig done : list slot) (j n : nat) (acts : list (list act)) (l : list slot) (pos : nat) (hw : option nat) (hp : bool) (b : option alloc)
+    : list slot * nat * option nat * bool * option alloc * bool :=
     match n with
     | O => (l, pos, hw, hp, b, false)
     | S n' => let al := match acts with a :: _ => a | [] => [] end in
@@ -349,6 +368,15 @@ Section Pass.
     else if (0 <? d1)%Z then fwd (Z.to_nat d1) l s1 hw hp1
     else (s1, hp1).
 
+  (* SlotMap::collectGarbage at the end of a rule returns to the pool the temp copies and the deleted slots the slot map still names
+     (a slot that was temp-copied and then deleted is not among them: its map entry names the copy) *)
+  Fixpoint nfree (r : rule) (j : nat) (acts : list (list act)) : nat :=
+    match acts with
+    | [] => O
+    | al :: rest => ((if tempc r j then 1 else if has_delete al then 1 else 0) + nfree r (S j) rest)%nat
+    end.
+  Definition give_back (r : rule) (b : option alloc) : option alloc :=
+    match b with Some a => Some (set_free a (a_free a + nfree r (r_pre r) (firstn (r_sort r - r_pre r) (r_acts r)))%nat) | None => None end.
   Definition loop_step (positioning : bool) (maxloop : nat) (rules : list rule) (st : lstate) : lstate :=
     match ls_s st with
     | None => st
@@ -369,7 +397,7 @@ Section Pass.
                 let '(l', pos', hw', hp', b', dead) := do_items r window (firstn (r_pre r) window) (r_pre r) n (r_acts r) l i (ls_hw st) false (ls_b st) in
                 if dead then (l', None, hw', hp', b', true) else
                 let out := if Nat.ltb pos' (length l') then Some pos' else None in
-                let '(s', hp'') := adjust l' (r_ret r) out hw' hp' in (l', s', hw', hp'', b', false)
+                let '(s', hp'') := adjust l' (r_ret r) out hw' hp' in (l', s', hw', hp'', give_back r b', false)
           end in
         if dead then mkls0 l1 None hw1 hp1 (ls_lc st) b1 true else
         (* if (s && (s == highwater || highpassed || --lc == 0)) { if (!lc) s = highwater; lc = maxloop; if (s) highwater(s->next) } *)
@@ -390,28 +418,79 @@ Section Pass.
     | O => st
     | S f => match ls_s st with None => st | Some _ => loop_run positioning maxloop rules f (loop_step positioning maxloop rules st) end
     end.
+  (* ---- what the C02 acceptor (Model/LoopModel.v) observes of an iteration: the measure
+         mu = (slots from the high-water slot to the end) + (remaining insert budget),
+     the loop counter, whether the counter was reset, whether the cursor is still live *)
+  Definition hwp (l : list slot) (hw : option nat) : nat := match hw with Some h => h | None => length l end.
+  Definition sfh (l : list slot) (hw : option nat) : nat := (length l - hwp l hw)%nat.
+  Definition bud (b : option alloc) : nat := match b with Some a => a_bud a | None => O end.
+  Definition mu (st : lstate) : N := N.of_nat (sfh (ls_l st) (ls_hw st) + bud (ls_b st)).
+  Definition live (st : lstate) : bool := match ls_s st with Some _ => true | None => false end.
+  Definition step_obs (st st' : lstate) : obs :=
+    mkobs (mu st') (N.of_nat (ls_lc st')) (negb (Nat.eqb (S (ls_lc st')) (ls_lc st))) (live st').
+  Fixpoint loop_obs (positioning : bool) (maxloop : nat) (rules : list rule) (fuel : nat) (st : lstate) : list obs :=
+    match fuel with
+    | O => []
+    | S f => match ls_s st with
+             | None => []
+             | Some _ => let st' := loop_step positioning maxloop rules st in step_obs st st' :: loop_obs positioning maxloop rules f st'
+             end
+    end.
+  Definition st_init (maxloop : nat) (l : list slot) (b : option alloc) : lstate := mkls0 l (Some O) (nxt l O) false maxloop b false.
+
+  (* enough fuel for every run (Proofs/LoopBridge.v: the loop makes at most maxloop * (slots after the high-water mark + budget + 1) iterations);
+     without a budget (None) inserts are unbounded and the fuel is a guess *)
+  Definition pass_fuel_b (maxloop : nat) (l : list slot) (b : option alloc) : nat :=
+    (maxloop * (length l + match b with Some a => a_bud a | None => 65 * length l end + 1) + 1)%nat.
   (* one pass with the insert budget: the stream and budget afterwards, or None when an INSERT found the budget exhausted *)
-  Definition run_pass_b (positioning : bool) (maxloop : nat) (rules : list rule) (l : list slot) (b : option nat) : option (list slot * option nat) :=
+  Definition run_pass_b (positioning : bool) (maxloop : nat) (rules : list rule) (l : list slot) (b : option alloc) : option (list slot * option alloc) :=
     match l with
     | [] => Some (l, b)
-    | _ => let st := loop_run positioning maxloop rules (maxloop * (66 * length l + 2) + 1) (mkls0 l (Some O) (nxt l O) false maxloop b false) in
+    | _ => let st := loop_run positioning maxloop rules (pass_fuel_b maxloop l b) (st_init maxloop l b) in
            if ls_dead st then None else Some (ls_l st, ls_b st)
     end.
   Definition run_pass_adj (positioning : bool) (maxloop : nat) (rules : list rule) (l : list slot) : list slot :=
     match run_pass_b positioning maxloop rules l None with Some (l', _) => l' | None => l end.
   (* Silf::runGraphite: the substitution passes share one budget of 64 inserts per initial slot and each must end with at most that many
      slots; the positioning passes cannot insert *)
-  Fixpoint run_passes_b (k nsubst : nat) (maxsize : nat) (passes : list (nat * list rule)) (l : list slot) (b : option nat) : option (list slot) :=
+  Fixpoint run_passes_b (k nsubst : nat) (maxsize : nat) (passes : list (nat * list rule)) (l : list slot) (b : option alloc) : option (list slot) :=
     match passes with
     | [] => Some l
     | (ml, p) :: rest =>
-        match run_pass_b (Nat.leb nsubst k) (Nat.max 1 ml) p l b with
+        (* the positioning passes are a second Silf::runGraphite call with a slot map of its own: a fresh budget (the pool is the segment's) *)
+        let b0 := if Nat.eqb k nsubst then match b with Some a => Some (set_bud a (64 * length l)%nat) | None => None end else b in
+        match run_pass_b (Nat.leb nsubst k) (Nat.max 1 ml) p l b0 with
         | None => None
         | Some (l', b') => if Nat.ltb k nsubst && Nat.ltb maxsize (length l') then None else run_passes_b (S k) nsubst maxsize rest l' b'
         end
     end.
+  (* gr_make_seg on n characters: budget 64 n; the Segment constructor leaves 10 slots in the pool after the n initial slots, further
+     blocks hold floor(log2 n) + 1 slots and are refused once the stream holds more than 64 n slots *)
+  Definition alloc0 (n : nat) : alloc := mkalloc (64 * n) 10 (Nat.log2 n + 1) (64 * n).
   Definition run_passes_adj (nsubst : nat) (passes : list (nat * list rule)) (l : list slot) : option (list slot) :=
-    run_passes_b 0 nsubst (64 * length l) passes l (Some (64 * length l)%nat).
+    run_passes_b 0 nsubst (64 * length l) passes l (Some (alloc0 (length l))).
+
+  (* the same run, reporting per executed pass what the acceptor sees: (maxloop, mu at the start, the observations, died) *)
+  Fixpoint run_passes_trace (k nsubst : nat) (maxsize : nat) (passes : list (nat * list rule)) (l : list slot) (b : option alloc) : list (nat * N * list obs * bool) :=
+    match passes with
+    | [] => []
+    | (ml, p) :: rest =>
+        let b0 := if Nat.eqb k nsubst then match b with Some a => Some (set_bud a (64 * length l)%nat) | None => None end else b in
+        let maxloop := Nat.max 1 ml in
+        let positioning := Nat.leb nsubst k in
+        let here := match l with
+                    | [] => []
+                    | _ => let st0 := st_init maxloop l b0 in
+                           [(maxloop, mu st0, loop_obs positioning maxloop p (pass_fuel_b maxloop l b0) st0,
+                             ls_dead (loop_run positioning maxloop p (pass_fuel_b maxloop l b0) st0))]
+                    end in
+        here ++ match run_pass_b positioning maxloop p l b0 with
+                | None => []
+                | Some (l', b') => if Nat.ltb k nsubst && Nat.ltb maxsize (length l') then [] else run_passes_trace (S k) nsubst maxsize rest l' b'
+                end
+    end.
+  Definition run_trace (nsubst : nat) (passes : list (nat * list rule)) (l : list slot) : list (nat * N * list obs * bool) :=
+    run_passes_trace 0 nsubst (64 * length l) passes l (Some (alloc0 (length l))).
 
   (* final positioning of an unattached stream, left to right: origin = running advance + shift *)
   Fixpoint origins (l : list slot) (cur : Z) : list Z :=
